@@ -371,6 +371,197 @@ fn path_str(p: &Path) -> String {
     p.to_string_lossy().replace('\\', "/")
 }
 
+// ------------------------------------------------------------------ differential run of the planner/executor
+use rustic_core::verif_hooks::c02 as hook;
+
+/// real 256-bit ids -> small integers (the model's ids), in order of first appearance
+#[derive(Default)]
+struct Maps {
+    index: BTreeMap<String, u64>,
+    pack: BTreeMap<String, u64>,
+    blob: BTreeMap<String, u64>,
+}
+fn num(m: &mut BTreeMap<String, u64>, base: u64, k: String) -> u64 {
+    let n = m.len() as u64;
+    *m.entry(k).or_insert(base + n)
+}
+fn hexs(id: &rustic_core::Id) -> String {
+    id.to_hex().as_str().to_string()
+}
+const NS: i64 = 1_000_000_000;
+
+/// Builds the planner input from the repository as it is, returns (case line for the model, id maps, output, plan).
+/// Times are in nanoseconds.
+fn hook_plan(
+    ctx: &Ctx,
+    repo: &Repository<OpenStatus>,
+    v: &[u64],
+    used: &BTreeSet<Blob>,
+) -> Result<(String, Maps, hook::PlanOutput, hook::PrunePlan), String> {
+    use rustic_core::ReadBackend;
+    let mut maps = Maps::default();
+    let now = rustic_core::jiff::Timestamp::now();
+    let mut files: Vec<(hook::IndexId, IndexFile)> = Vec::new();
+    for r in repo.stream_files::<IndexFile>().map_err(short)? {
+        files.push(r.map_err(short)?);
+    }
+    files.sort_by_key(|(i, _)| hexs(i));
+    let existing: Vec<(rustic_core::Id, u32)> = ctx.be.list_with_size(rustic_core::FileType::Pack).map_err(short)?;
+    let config = repo.config();
+    let (pmin, pmax) = config.packsize_ok_percents();
+    let sz = |t| {
+        let (size, _grow, limit) = config.packsize(t);
+        (size.min(limit), pmin, if pmax == u32::MAX { 0 } else { pmax })
+    };
+    let sizer = [sz(hook::BlobType::Tree), sz(hook::BlobType::Data)];
+    let mut t: Vec<String> = Vec::new();
+    t.push(now.as_nanosecond().to_string());
+    t.push((v[11] as i64 * NS).to_string());
+    t.push((v[12] as i64 * NS).to_string());
+    let cacheable_only = v[6] == 2;
+    for b in [cacheable_only, v[3] == 1, v[4] == 1, v[5] == 1, v[0] == 1] {
+        t.push(u8::from(b).to_string());
+    }
+    for x in [v[7], v[8], v[9], v[10]] {
+        t.push(x.to_string());
+    }
+    for s in sizer {
+        t.extend([s.0.to_string(), s.1.to_string(), s.2.to_string()]);
+    }
+    t.push(used.len().to_string());
+    let mut used_typed = Vec::new();
+    for (is_tree, id) in used {
+        let n = num(&mut maps.blob, 1, id.clone());
+        t.push(if *is_tree { "0".into() } else { "1".into() });
+        t.push(n.to_string());
+        let bid = hook::BlobId::from(rustic_core::Id::from_hex(id).map_err(short)?);
+        used_typed.push((if *is_tree { hook::BlobType::Tree } else { hook::BlobType::Data }, bid));
+    }
+    t.push(existing.len().to_string());
+    for (id, size) in &existing {
+        t.push(num(&mut maps.pack, 100, hexs(id)).to_string());
+        t.push(size.to_string());
+    }
+    t.push(files.len().to_string());
+    for (fid, f) in &files {
+        t.push(num(&mut maps.index, 500, hexs(fid)).to_string());
+        for sec in [&f.packs, &f.packs_to_delete] {
+            t.push(sec.len().to_string());
+            for p in sec {
+                t.push(num(&mut maps.pack, 100, hexs(&p.id)).to_string());
+                t.push(p.pack_size().to_string());
+                match p.time {
+                    Some(tm) => {
+                        t.push("1".into());
+                        t.push(tm.as_nanosecond().to_string());
+                    }
+                    None => t.push("0".into()),
+                }
+                t.push(p.blobs.len().to_string());
+                for b in &p.blobs {
+                    t.push(num(&mut maps.blob, 1, hexs(&b.id)).to_string());
+                    t.push(if b.tpe == hook::BlobType::Tree { "0".into() } else { "1".into() });
+                    t.push(b.location.length.to_string());
+                    t.push(u8::from(b.location.uncompressed_length.is_some()).to_string());
+                }
+            }
+        }
+    }
+    let limit_of = |k: u64, x: u64| limit(k, x);
+    let input = hook::PlanInput {
+        index_files: files,
+        used: used_typed,
+        existing: existing.into_iter().map(|(i, s)| (hook::PackId::from(i), s)).collect(),
+        now,
+        keep_pack: Span::new().seconds(v[11] as i64),
+        keep_delete: Span::new().seconds(v[12] as i64),
+        repack_cacheable_only: cacheable_only,
+        repack_uncompressed: v[3] == 1,
+        repack_all: v[4] == 1,
+        max_repack: limit_of(v[9], v[10]),
+        max_unused: limit_of(v[7], v[8]),
+        no_resize: v[5] == 1,
+        instant_delete: v[0] == 1,
+        sizer,
+    };
+    let (out, plan) = hook::plan(input).map_err(|e| short(format!("{e:?}")))?;
+    Ok((t.join(" "), maps, out, plan))
+}
+
+/// what the public `PrunePlan` shows: statistics and the packs to repack
+fn plan_summary(plan: &hook::PrunePlan) -> (Vec<u64>, BTreeSet<String>) {
+    let s = &plan.stats;
+    let (bt, bd) = (s.blobs[hook::BlobType::Tree], s.blobs[hook::BlobType::Data]);
+    let (st, sd) = (s.size[hook::BlobType::Tree], s.size[hook::BlobType::Data]);
+    (
+        vec![bt.used, bt.unused, bd.used, bd.unused, st.used, st.unused, sd.used, sd.unused,
+             s.packs.used, s.packs.partly_used, s.packs.unused, s.packs.keep, s.packs.repack, s.packs_unref, s.size_unref],
+        plan.repack_packs().iter().map(|p| hexs(p)).collect(),
+    )
+}
+fn out_summary(o: &hook::PlanOutput, _maps: &Maps) -> (Vec<u64>, BTreeSet<String>) {
+    (
+        vec![o.blobs[0].0, o.blobs[0].1, o.blobs[1].0, o.blobs[1].1, o.sizes[0].0, o.sizes[0].1, o.sizes[1].0, o.sizes[1].1,
+             o.packs_used, o.packs_partly_used, o.packs_unused, o.packs_keep, o.packs_repack, o.packs_unref, o.size_unref],
+        o.decisions.iter().filter(|d| hook::todo_name(d.todo) == "Repack").map(|d| hexs(&d.pack)).collect(),
+    )
+}
+fn decisions_str(o: &hook::PlanOutput, maps: &Maps) -> String {
+    let d: Vec<String> = o
+        .decisions
+        .iter()
+        .map(|d| format!("{}:{}:{}:{}", maps.index[&hexs(&d.index)], maps.pack[&hexs(&d.pack)], u8::from(d.delete_mark), hook::todo_name(d.todo)))
+        .collect();
+    let rw: Vec<String> = o.rewritten.iter().map(|i| maps.index[&hexs(i)].to_string()).collect();
+    format!("d={} rw={}", d.join(","), rw.join(","))
+}
+
+/// the repository after the run, in the model's vocabulary: entries of old packs per section with their times
+/// (ns), removed old packs, untouched old index files, and the (type, blob) content of the packs written
+fn post_state(ctx: &Ctx, maps: &Maps) -> Result<String, String> {
+    let repo = ctx.open()?;
+    let packs_now: BTreeSet<String> = ctx.pack_list()?;
+    let (mut xp, mut xd, mut xnew, mut kept) = (Vec::new(), Vec::new(), Vec::new(), 0u64);
+    for r in repo.stream_files::<IndexFile>().map_err(short)? {
+        let (fid, f) = r.map_err(short)?;
+        if maps.index.contains_key(&hexs(&fid)) {
+            kept += 1;
+            continue;
+        }
+        let ent = |p: &rustic_core::repofile::IndexPack| {
+            format!("{}:{}", maps.pack[&hexs(&p.id)], p.time.map_or("n".to_string(), |t| t.as_nanosecond().to_string()))
+        };
+        for p in &f.packs {
+            if maps.pack.contains_key(&hexs(&p.id)) {
+                xp.push(ent(p));
+            } else {
+                for b in &p.blobs {
+                    xnew.push(format!("{}:{}", u8::from(b.tpe != hook::BlobType::Tree), maps.blob.get(&hexs(&b.id)).copied().unwrap_or(0)));
+                }
+            }
+        }
+        for p in &f.packs_to_delete {
+            if maps.pack.contains_key(&hexs(&p.id)) {
+                xd.push(ent(p));
+            } else {
+                xd.push("new_pack_marked".into());
+            }
+        }
+    }
+    let mut xrm: Vec<u64> = maps.pack.iter().filter(|(k, _)| !packs_now.contains(*k)).map(|(_, v)| *v).collect();
+    xp.sort();
+    xd.sort();
+    xnew.sort();
+    xrm.sort_unstable();
+    Ok(format!(
+        "xp={} xd={} xrm={} xnew={} xkept={kept}",
+        xp.join(","),
+        xd.join(","),
+        xrm.iter().map(u64::to_string).collect::<Vec<_>>().join(","),
+        xnew.join(",")
+    ))
+}
+
 // ------------------------------------------------------------------ the history
 
 struct State {
@@ -605,7 +796,8 @@ impl State {
         }
     }
 
-    fn op_prune(&mut self, opts: &PruneOptions, instant: bool, keep_delete_s: u64) -> Result<(), Failure> {
+    fn op_prune(&mut self, opts: &PruneOptions, v: &[u64]) -> Result<(), Failure> {
+        let (instant, keep_delete_s) = (v[0] == 1, v[12]);
         if instant || keep_delete_s < 600 {
             for r in &mut self.forgotten {
                 r.maybe_gone = true;
@@ -620,13 +812,49 @@ impl State {
         self.packs_marked_max = self.packs_marked_max.max(marked_before.len() as u64);
 
         let ctx = &self.ctx;
+        // the blobs the remaining snapshots reference, as recorded at backup time (walk by hand)
+        let used: BTreeSet<Blob> = self.remaining.iter().flat_map(|r| r.blobs.iter().cloned()).collect();
+        let trace_path = std::env::var("C02_E2E_TRACE").ok();
+        let mut trace: Option<(String, Maps)> = None;
+        let mut plan_differs: Option<String> = None;
         guard(|| {
             let repo = ctx.open()?;
+            // the real planner (real find_used_blobs)
             let plan = repo.prune_plan(opts).map_err(|e| short(format!("plan:{e}")))?;
-            repo.prune(opts, plan).map_err(|e| short(format!("prune:{e}")))
+            // the same planner steps through the hook on what THIS harness read: index files, pack listing,
+            // used blobs from its own tree walk, a clock
+            let hooked = hook_plan(ctx, &repo, v, &used);
+            match hooked {
+                Ok((case, maps, out, hplan)) => {
+                    let same = plan_summary(&plan) == out_summary(&out, &maps);
+                    if same {
+                        // execute the hook-built plan: its inputs are known, the model can predict the outcome
+                        trace = Some((format!("{case} || {}", decisions_str(&out, &maps)), maps));
+                        repo.prune(opts, hplan).map_err(|e| short(format!("prune:{e}")))
+                    } else {
+                        plan_differs = Some(short(format!("real_plan_{:?}_hook_plan_on_walked_used_ids_{:?}", plan_summary(&plan), out_summary(&out, &maps))));
+                        repo.prune(opts, plan).map_err(|e| short(format!("prune:{e}")))
+                    }
+                }
+                Err(e) => {
+                    plan_differs = Some(short(format!("hook_plan_failed_while_real_plan_succeeded:{e}")));
+                    repo.prune(opts, plan).map_err(|e| short(format!("prune:{e}")))
+                }
+            }
         })
         .map_err(|e| fail("prune_error", e))?;
         self.prunes += 1;
+        if let Some(d) = plan_differs {
+            self.soft_finding("plan_differs", d);
+        }
+        if let (Some(path), Some((line, maps))) = (trace_path, trace) {
+            if let Ok(post) = post_state(&self.ctx, &maps) {
+                use std::io::Write;
+                if let Ok(mut f) = fs::OpenOptions::new().create(true).append(true).open(path) {
+                    let _ = writeln!(f, "{line} {post}");
+                }
+            }
+        }
 
         let end = now_ms();
         // statistics: best effort, a broken index shows up in the verification
@@ -939,7 +1167,7 @@ fn run_case(line: &str) -> String {
                     .max_repack(limit(v[9], v[10]))
                     .keep_pack(Span::new().seconds(v[11] as i64))
                     .keep_delete(Span::new().seconds(v[12] as i64));
-                let r = st.op_prune(&opts, v[0] == 1, v[12]);
+                let r = st.op_prune(&opts, &v);
                 st.defer_verify = false;
                 r
             }
